@@ -281,17 +281,24 @@ def run_tunnel(case):
     elif use_proxy:
         sock = net.sockets[0]
         sent = bytes(sock.sent)
-        want_head = f"CONNECT {host}:{tport} HTTP/1.1\r\nHost: {host}:{tport}\r\n"
-        if auth:
-            want_head += "Proxy-Authorization: Basic " + base64.b64encode(f"{auth[0]}:{auth[1]}".encode()).decode() + "\r\n"
-        want_head += "\r\n"
         head_end = sent.find(b"\r\n\r\n") + 4
         got_head = sent[:head_end].decode("latin-1")
-        if got_head != want_head:
-            sub = "credentials" if ("Proxy-Authorization" in want_head) != ("Proxy-Authorization" in got_head) or (auth and "Basic" in got_head) else "request"
-            if got_head.split("\r\n")[0] != want_head.split("\r\n")[0]:
-                sub = "connect-line"
-            obs.fail(f"tunnel|{sub}", f"sent {got_head!r}, expected {want_head!r}")
+        # the CONNECT request: parsed strictly; additional header fields are tolerated, the ones the property names are judged
+        try:
+            creq = rm.parse_http_request(sent[:head_end] if head_end >= 4 else sent + b"\r\n\r\n")
+        except ValueError as e:
+            creq = None
+            obs.fail("tunnel|connect-request-malformed", f"{e}; sent {got_head!r}")
+        if creq is not None:
+            if (creq["method"], creq["target"], creq["version"]) != ("CONNECT", f"{host}:{tport}", "HTTP/1.1"):
+                obs.fail("tunnel|connect-line", f"sent {got_head.splitlines()[0]!r}, expected 'CONNECT {host}:{tport} HTTP/1.1'")
+            hh = rm.header_values(creq, "Host")
+            if hh and hh != [f"{host}:{tport}"]:
+                obs.fail("tunnel|connect-host-header", f"Host {hh}, target {host}:{tport}")
+            pa = rm.header_values(creq, "Proxy-Authorization")
+            want_pa = ["Basic " + base64.b64encode(f"{auth[0]}:{auth[1]}".encode()).decode()] if auth else []
+            if pa != want_pa:
+                obs.fail("tunnel|credentials", f"Proxy-Authorization {pa}, expected {want_pa}")
         if status == 200:
             if raised is not None:
                 obs.fail(exc_bucket("tunnel|200-not-accepted", raised), f"{type(raised).__name__}: {raised}")
